@@ -104,7 +104,8 @@ def run(ctx):
         sp = Spawn(F, 'BFS')
         w = sp.worker
         ctx.touched(w)
-        splits = w.calls_to('JobBroker::split_and_push')
+        import roles
+        splits = roles.calls_role(F, w, 'split_and_push')
         # (a) worker-side guard: a comparison of the captured thread_count with a constant >= 1
         guard_a = bool(splits)
         for sc in splits:
@@ -140,7 +141,7 @@ def run(ctx):
                         ok = True
             guard_a = guard_a and ok
         # (b) broker-side bound: pieces = 1 + min(thread_count - open_count, len)
-        jb = F.body('job_market::JobBroker::<Job>::split_and_push')
+        jb = roles.jm(F, 'split_and_push')
         ctx.touched(jb)
         guard_b = False
         so = jb.calls_to('VecDeque::split_off')
